@@ -48,7 +48,10 @@ type selNode struct {
 	applies bool   // the type condition holds for the concrete object type
 	frag    string // spread: fragment name
 	hasSub  bool   // field: has a selection set
-	body    []*selNode
+	// uncoercible: the selection's directive argument is $nv (explicit null at Boolean!): left out,
+	// with an error
+	uncoercible bool
+	body        []*selNode
 }
 
 func (n *selNode) text(b *strings.Builder) {
@@ -403,6 +406,63 @@ func plainSet(t *TShape) []*selNode {
 	return out
 }
 
+// NullVar is the operation's variable `$nv: Boolean = <default>` for which the request sends an
+// explicit null. Used at `if: Boolean!` of @skip / @include the document is valid (a variable with
+// a default may stand in a non-null position), but at run time the directive's argument cannot be
+// coerced: collectFieldsImpl reports that as an error (no path) and leaves the selection out. The
+// error belongs to the collection of one (object type, selection set), which the executor memoises:
+// it must be reported once, not once per object the selection set is applied to.
+const NullVar = "nv"
+
+// addUncoercibleDirective inserts, into one selection set of the tree (the root's, a field's or an
+// inline fragment's — not a named fragment's, whose body may be spread into several selection
+// sets), the selection `bv:__typename @skip(if: $nv)` (or @include). It draws from its own
+// generator so that the presentations chosen by Case.Syntax stay what they were.
+func addUncoercibleDirective(root []*selNode, r *hx.Rand) ([]*selNode, bool) {
+	if !r.Chance(1, 4) {
+		return root, false
+	}
+	var slots []*selNode // nil = the root selection set
+	slots = append(slots, nil)
+	var walk func(ns []*selNode)
+	walk = func(ns []*selNode) {
+		for _, n := range ns {
+			if n.kind == "spread" {
+				continue
+			}
+			if (n.kind == "field" && n.hasSub) || n.kind == "inline" {
+				slots = append(slots, n)
+			}
+			walk(n.body)
+		}
+	}
+	walk(root)
+	dir := " @skip(if: $" + NullVar + ")"
+	if r.Bool() {
+		dir = " @include(if: $" + NullVar + ")"
+	}
+	bad := &selNode{kind: "field", key: "bv", name: "__typename", alias: true, dirs: dir, skip: true, uncoercible: true}
+	slot := slots[r.Intn(len(slots))]
+	ins := func(ns []*selNode) []*selNode {
+		pos := r.Intn(len(ns) + 1)
+		return append(append(append([]*selNode{}, ns[:pos]...), bad), ns[pos:]...)
+	}
+	if slot == nil {
+		return ins(root), true
+	}
+	slot.body = ins(slot.body)
+	return root, true
+}
+
+func usesNullVar(ns []*selNode) bool {
+	for _, n := range ns {
+		if n.uncoercible || usesNullVar(n.body) {
+			return true
+		}
+	}
+	return false
+}
+
 // Selections builds the root selection set of the document.
 func (c *Case) Selections() []*selNode {
 	AssignTypeNames(c.Shape)
@@ -410,8 +470,14 @@ func (c *Case) Selections() []*selNode {
 		return plainSet(c.Shape)
 	}
 	s := &synth{r: hx.NewRand(c.Syntax)}
-	return s.selSet(c.Shape, allItems(c.Shape, false))
+	sels := s.selSet(c.Shape, allItems(c.Shape, false))
+	sels, _ = addUncoercibleDirective(sels, hx.NewRand(c.Syntax^0x9e3779b97f4a7c15))
+	return sels
 }
+
+// UsesNullVar reports whether the document has a directive on $nv (the request then carries
+// `{"nv": null}`).
+func (c *Case) UsesNullVar() bool { return usesNullVar(c.Selections()) }
 
 // Document prints the operation text.
 func (c *Case) Document() string {
@@ -419,6 +485,12 @@ func (c *Case) Document() string {
 	var b strings.Builder
 	if c.Mutation {
 		b.WriteString("mutation ")
+	}
+	if usesNullVar(sels) {
+		if !c.Mutation {
+			b.WriteString("query ")
+		}
+		b.WriteString("($" + NullVar + ":Boolean=" + strconv.FormatBool(c.Mutation) + ") ")
 	}
 	nodesText(&b, sels)
 	var defs []string
